@@ -98,9 +98,15 @@ LSOf(s) == <<<<"__name__", s.name>>>> \o (IF s.a = "" THEN <<>> ELSE <<<<"a", s.
 \* (for the replay a third metric k with a single series: next to n it is a duplicate for the match at a="x", b="x" only)
 DataScn == [i \in 1..Len(DataSeq) |-> Series(LSOf(DataSeq[i]), [u \in 1..6 |-> Smp(u - 1, "f", 3 * i + u)])]
            \o << Series(<< <<"__name__", "k">>, <<"a", "x">>, <<"b", "x">> >>, [u \in 1..6 |-> Smp(u - 1, "f", 500 + u)]) >>
+           \* ... and a metric d whose series are duplicates for a match on (a, b) / ignoring (c) at a="x" only
+           \o << Series(<< <<"__name__", "d">>, <<"a", "x">>, <<"b", "x">>, <<"c", "1">> >>, [u \in 1..6 |-> Smp(u - 1, "f", 600 + u)]),
+                 Series(<< <<"__name__", "d">>, <<"a", "x">>, <<"b", "x">>, <<"c", "2">> >>, [u \in 1..6 |-> Smp(u - 1, "f", 700 + u)]),
+                 Series(<< <<"__name__", "d">>, <<"a", "y">>, <<"b", "x">> >>, [u \in 1..6 |-> Smp(u - 1, "f", 800 + u)]),
+                 Series(<< <<"__name__", "d">>, <<"a", "y">>, <<"b", "y">> >>, [u \in 1..6 |-> Smp(u - 1, "f", 900 + u)]) >>
 
 \* binon: `A + on () B` - selectors as direct operands, but matched on no label at all
-Positions == <<"bin", "sum", "fnarg", "range", "aggby", "groupleft", "cmp", "neg", "paren", "nested", "binon">>
+\* binona / binign: direct operands matched on one label / on all but one label
+Positions == <<"bin", "sum", "fnarg", "range", "aggby", "groupleft", "cmp", "neg", "paren", "nested", "binon", "binona", "binign">>
 \* a well-mixed hash of the pair (indices of the matchers in the alphabet), so that every residue class holds every kind of pair
 MASeq == SetToSeq(MA)
 Idx(m) == CHOOSE i \in 1..Len(MASeq) : MASeq[i] = m
@@ -109,13 +115,15 @@ Hash(x) == LH(x.m1, 7919, 104729) + LH(x.m2, 1299709, 15485863) + (IF x.n1 = "m"
 \* different metrics sharing a matcher: PropagateMatchers looks at the pair and must leave it alone
 Shared(x) == x.n1 # x.n2 /\ (\E i \in 1..Len(x.m1) : InList(x.m2, x.m1[i]))
 \* `A + B` with both selectors as direct operands is the only position PropagateMatchers rewrites: half of the pairs it looks at go there
-PosOf(x) == IF (Applies(x) \/ Shared(x)) /\ (Hash(x) \div Mod) % 2 = 0 THEN (IF (Hash(x) \div (2 * Mod)) % 3 = 0 THEN "binon" ELSE "bin")
+PosOf(x) == IF (Applies(x) \/ Shared(x)) /\ (Hash(x) \div Mod) % 2 = 0 THEN (LET r == (Hash(x) \div (2 * Mod)) % 6 IN IF r = 0 THEN "binon" ELSE IF r = 1 THEN "binona" ELSE IF r = 2 THEN "binign" ELSE "bin")
             ELSE Positions[((Hash(x) \div (2 * Mod)) % Len(Positions)) + 1]
 
 PlanOf(x) ==
   LET p == PosOf(x)  a == <<[Blank("sel") EXCEPT !.m = S1(x)]>>  b == <<[Blank("sel") EXCEPT !.m = S2(x)]>> IN
   CASE p = "bin"   -> Join(a, b, LAMBDA i, j : Bin("+", i, j))
     [] p = "binon" -> Join(a, b, LAMBDA i, j : BinM("*", i, j, FALSE, "1:1", TRUE, <<>>, <<>>))
+    [] p = "binona" -> Join(a, b, LAMBDA i, j : BinM("*", i, j, FALSE, "1:1", TRUE, <<"a">>, <<>>))
+    [] p = "binign" -> Join(a, b, LAMBDA i, j : BinM("-", i, j, FALSE, "1:1", FALSE, <<"b">>, <<>>))
     [] p = "cmp"   -> Join(a, b, LAMBDA i, j : Bin(">=", i, j))
     [] p = "sum"   -> Join(Over(a, LAMBDA c : Agg("sum", TRUE, <<>>, <<c>>)), Over(b, LAMBDA c : Agg("sum", TRUE, <<>>, <<c>>)), LAMBDA i, j : Bin("+", i, j))
     [] p = "fnarg" -> Join(Over(a, LAMBDA c : Fn("abs", <<c>>)), b, LAMBDA i, j : Bin("+", i, j))
@@ -152,7 +160,16 @@ DirectPlans == {Join(<<[Blank("sel") EXCEPT !.m = <<Metric("m")>> \o ms]>>, <<[B
                    : ms \in {<<Eq("a", "q")>>, <<Eq("a", "x")>>, <<Neq("b", "")>>, <<>>}, j \in 1..Len(Broader)}
                \cup {Join(<<[Blank("sel") EXCEPT !.m = Broader[j]]>>, <<[Blank("sel") EXCEPT !.m = <<Metric("n")>> \o ms]>>, LAMBDA a, b : Bin("*", a, b))
                    : ms \in {<<Eq("a", "q")>>, <<Eq("b", "y")>>}, j \in 1..Len(Broader)}
-EmitFamily == (\A p \in DirectPlans : Emit(Scn("opt", "C09", TickMs, DataScn, p, 2, 5, 1, 2, 0) @@ [pin |-> TRUE, cfg |-> [bare |-> 1]])) /\ \A p \in FamilyPlans : Emit(Scn("opt", "C09", TickMs, DataScn, p, 2, 5, 1, 2, 0) @@ [pin |-> TRUE])
+\* a selector of m next to the metric d as direct operands matched on a subset of the labels: d holds duplicates for the
+\* match at a="x" only, which fails the query whatever the matchers of the m side say about a
+MatchOn == << [on |-> TRUE, l |-> <<"a", "b">>], [on |-> TRUE, l |-> <<"a">>], [on |-> FALSE, l |-> <<"c">>], [on |-> FALSE, l |-> <<"b", "c">>] >>
+SubsetPlans == {Join(<<[Blank("sel") EXCEPT !.m = <<Metric("m")>> \o ms]>>, <<[Blank("sel") EXCEPT !.m = <<Metric("d")>>]>>,
+                     LAMBDA a, b : BinM("*", a, b, FALSE, "1:1", MatchOn[k].on, MatchOn[k].l, <<>>))
+                   : ms \in {<<Eq("a", "y")>>, <<Eq("a", "y"), Eq("b", "y")>>, <<Neq("a", "x")>>}, k \in 1..Len(MatchOn)}
+               \cup {Join(<<[Blank("sel") EXCEPT !.m = <<Metric("d")>>]>>, <<[Blank("sel") EXCEPT !.m = <<Metric("m")>> \o ms]>>,
+                     LAMBDA a, b : BinM("-", a, b, FALSE, "1:1", MatchOn[k].on, MatchOn[k].l, <<>>))
+                   : ms \in {<<Eq("a", "y")>>, <<Eq("a", "y"), Eq("b", "y")>>, <<Neq("a", "x")>>}, k \in 1..Len(MatchOn)}
+EmitFamily == (\A p \in SubsetPlans : Emit(Scn("opt", "C09", TickMs, DataScn, p, 2, 5, 1, 2, 0) @@ [pin |-> TRUE, cfg |-> [bare |-> 1]])) /\ (\A p \in DirectPlans : Emit(Scn("opt", "C09", TickMs, DataScn, p, 2, 5, 1, 2, 0) @@ [pin |-> TRUE, cfg |-> [bare |-> 1]])) /\ \A p \in FamilyPlans : Emit(Scn("opt", "C09", TickMs, DataScn, p, 2, 5, 1, 2, 0) @@ [pin |-> TRUE])
 \* emit pairs on which a rewrite actually fires or which PropagateMatchers inspects and rejects, from the seeded residue class
 Fires(x) == Rewrite(x, S1(x)).merged \/ Rewrite(x, S2(x)).merged \/ Applies(x)
 \* ... and, at a third of that rate, pairs on which the model says NO rewrite fires (a change that
